@@ -24,6 +24,11 @@ the sites in `$VERIF_REPO/ariadne_codegen` with the `ast` module:
   state:cache   @lru_cache / @cache / @functools.* decorated function (key: decorator + function name)
   state:mutate  a module-level container (by name, any file) mutated: .setdefault/.update/.append/.../ x[k] = v / del
   state:global  `global NAME` statement
+  nondet:import   import of a module whose use makes results depend on scheduling, time or chance: concurrent.futures,
+              threading, multiprocessing, asyncio, queue, random, secrets, uuid, time, signal, sched, selectors
+  nondet:call     ThreadPoolExecutor / ProcessPoolExecutor / Thread / Pool / executor.submit / as_completed / wait /
+              imap_unordered / gather ...; the results of as_completed / wait / imap_unordered are UNORDERED
+              collections: their consumers are sites with derived sinks exactly like sets
   fs          file-system access: <receiver>.exists/is_dir/is_file/read_text/mkdir/write_text/unlink/...(...), open(...),
               shutil.*, os.remove/rename/makedirs/...  (what is read, what is written, what is tested)
 
@@ -57,6 +62,11 @@ EXCLUDE_DIRS = ("client_generators/dependencies",)
 FS_METHODS = {"exists", "is_dir", "is_file", "read_text", "read_bytes", "mkdir", "write_text", "write_bytes", "unlink",
               "rmdir", "rename", "touch", "stat", "lstat", "iterdir", "samefile", "chmod", "symlink_to"}
 FS_FUNCS = {"open", "io.open", "os.listdir", "os.stat"}
+NONDET_MODULES = {"concurrent", "concurrent.futures", "threading", "multiprocessing", "asyncio", "queue", "random", "secrets",
+                  "uuid", "time", "signal", "sched", "selectors", "_thread", "multiprocessing.pool", "multiprocessing.dummy"}
+NONDET_CALLS = {"ThreadPoolExecutor", "ProcessPoolExecutor", "Thread", "Process", "Pool", "ThreadPool", "submit", "as_completed",
+                "wait", "imap_unordered", "map_async", "apply_async", "gather", "run_in_executor", "create_task", "Timer"}
+UNORDERED_RESULTS = {"as_completed", "wait", "imap_unordered"}
 FORMATTERS = {"isort.code", "isort.api.sort_code_string", "format_str", "black.format_str", "fix_code",
               "autoflake.fix_code", "isort.file", "isort.stream"}
 
@@ -172,7 +182,7 @@ class FileScan:
                 return True
             if isinstance(e.func, ast.Attribute) and cn in SET_METHODS_RETURNING_SET and self.is_set(e.func.value):
                 return True
-            if cn in self.g.fn_returns_set or cn in self.g.fn_returns_listing or cn in LISTING:
+            if cn in self.g.fn_returns_set or cn in self.g.fn_returns_listing or cn in LISTING or cn in UNORDERED_RESULTS:
                 return True
             if isinstance(e.func, ast.Attribute) and cn == "get" and self.is_container(e.func.value):
                 return True
@@ -369,9 +379,16 @@ class FileScan:
             elif isinstance(n, ast.Call) and isinstance(n.func, ast.Name) and n.func.id in ("set", "frozenset"):
                 # generated-code AST such as generate_call(func=generate_name("set")) is text, not a call
                 self.add(n, "construct")
+            if isinstance(n, (ast.Import, ast.ImportFrom)):
+                mods = [a.name for a in n.names] if isinstance(n, ast.Import) else [n.module or ""]
+                if any(m in NONDET_MODULES or m.split(".")[0] in NONDET_MODULES for m in mods):
+                    self.add(n, "nondet:import")
             # listings and ambient sources
             if isinstance(n, ast.Call):
                 cn = self.callee_name(n)
+                if cn in NONDET_CALLS and not (cn in ("wait", "submit", "gather") and isinstance(n.func, ast.Attribute)
+                                               and ast.unparse(n.func.value) in ("self", "websocket")):
+                    self.add(n, "nondet:call", n.func)
                 if cn in LISTING:
                     self.add(n, "listing")
                 src = ast.unparse(n.func)
